@@ -412,9 +412,11 @@ impl Keyword {
             return regex::Regex::new(&self.0);
         }
 
-        let mut regex_str = regex::escape(&self.0).replace(' ', "\\s");
+        let mut regex_str = regex::escape(&self.0);
 
         if self.1 == KeywordType::Wildcard {
+            // in a parse pattern a blank stands for any whitespace; a quoted keyword is literal text
+            regex_str = regex_str.replace(' ', "\\s");
             // a bare keyword matches case-insensitively, a quoted one is case-sensitive;
             // a wildcard stands for any text, line breaks inside a field value included
             regex_str.insert_str(0, "(?is)");
